@@ -68,6 +68,7 @@ type World struct {
 	GenesisTime uint32
 	SlotMs      uint64 // mine timeout (slot length) in milliseconds
 	Genesis     *chain.Genesis
+	DeputyCap   int // the nodes' configured number of deputies per term (>= len(Deputies))
 }
 
 // WorldCfg selects the size of a world.
@@ -76,6 +77,9 @@ type WorldCfg struct {
 	Users       int
 	SlotMs      uint64
 	GenesisTime uint32 // 0 = fixed past instant (1700000000)
+	// DeputyCap is the nodes' configured deputy count (0 = the number of genesis deputies): with a larger value
+	// registered candidates enlarge the deputy set at the next term
+	DeputyCap int `json:",omitempty"`
 }
 
 func LEMO(n int64) *big.Int { return new(big.Int).Mul(big.NewInt(n), big.NewInt(1e18)) }
@@ -83,7 +87,10 @@ func LEMO(n int64) *big.Int { return new(big.Int).Mul(big.NewInt(n), big.NewInt(
 // NewWorld builds keys and the genesis description. Deputy i mines to Deputies[i].Addr and
 // earns into Income[i].
 func NewWorld(cfg WorldCfg) *World {
-	w := &World{ChainID: 200, SlotMs: cfg.SlotMs, GenesisTime: cfg.GenesisTime}
+	w := &World{ChainID: 200, SlotMs: cfg.SlotMs, GenesisTime: cfg.GenesisTime, DeputyCap: cfg.DeputyCap}
+	if w.DeputyCap < cfg.Deputies {
+		w.DeputyCap = cfg.Deputies
+	}
 	if w.SlotMs == 0 {
 		w.SlotMs = 10000
 	}
@@ -176,7 +183,7 @@ func (n *Node) open() {
 	if _, err := n.DB.GetBlockByHeight(0); err != nil {
 		chain.SetupGenesisBlock(n.DB, n.W.Genesis)
 	}
-	n.DM = deputynode.NewManager(len(n.W.Deputies), n.DB)
+	n.DM = deputynode.NewManager(n.W.DeputyCap, n.DB)
 	n.Pool = txpool.NewTxPool()
 	bc, err := chain.NewBlockChain(chain.Config{ChainID: n.W.ChainID, MineTimeout: n.W.SlotMs}, n.DM, n.DB, flag.CmdFlags{}, n.Pool)
 	if err != nil {
